@@ -472,6 +472,8 @@ class String:
         if pushed is not None:
             # We were passed a TemplateDict, so we must be a sub-template
             md = mapping
+            if md.level > 200:
+                raise SystemError('infinite recursion in document template')
             push = md._push
             if globals:
                 push(self.globals)
@@ -496,8 +498,6 @@ class String:
             pushed = 0
 
         level = md.level
-        if level > 200:
-            raise SystemError('infinite recursion in document template')
         md.level = level + 1
 
         if client is not None:
